@@ -40,8 +40,9 @@ def run(ctx):
     q = ctx.quick
     a = lsq.api_check(ctx, "C01:minnorm")
     r, ss = sessions.generate(ctx, "c08", {"Templates": '{"free2d", "freevec3d", "freelev1d"}', "NoiseSet": NOISE, "MaxEdits": 2, "EditKinds": '{"ChangeDatum", "SetAlgorithm"}',
-                                           "KeepNet": 47 if q else 2, "KeepEdit": 2 if q else 1, "Seed": ctx.seed})
+                                           "KeepNet": 47 if q else 7, "KeepEdit": 2 if q else 1, "Seed": ctx.seed})
     ss = [s for s in ss if any(e["e"]["k"] == "ChangeDatum" for e in s["edits"])]
+    ss = ss[:: max(1, len(ss) // (2500 if q else 20000))]
     ctx.note("SurveySession: %d datum sessions on the free network" % len(ss))
 
     def each(res, sv, report):
